@@ -15,6 +15,7 @@ import (
 	"net/http/httptest"
 	"reflect"
 	"strings"
+	"sync"
 	"testing"
 
 	"github.com/google/martian/v3"
@@ -241,6 +242,7 @@ type shape struct {
 	filters        map[string]bool
 	hasElse        bool
 	singleSideLeaf bool
+	prioOmitted    bool // a priority entry without the "priority" key that follows an entry with a non-zero priority
 }
 
 func shapeOf(root *tr.Node) shape {
@@ -272,6 +274,11 @@ func shapeOf(root *tr.Node) shape {
 			s.singleSideLeaf = true
 		}
 		if n.T == tr.Priority {
+			for i := range n.Kids {
+				if i > 0 && i < len(n.NoPrio) && n.NoPrio[i] && n.PrioOf(i-1) != 0 {
+					s.prioOmitted = true
+				}
+			}
 			seen := map[int]bool{}
 			for _, p := range n.Prio {
 				if seen[p] {
@@ -342,6 +349,9 @@ func classes(c Case) []string {
 	}
 	if s.emptyScope {
 		cl = append(cl, "empty-scope")
+	}
+	if s.prioOmitted {
+		cl = append(cl, "priority-key-omitted-after-nonzero")
 	}
 	if s.hasElse {
 		cl = append(cl, "else-present")
@@ -508,6 +518,12 @@ func (g *gen) node(depth int) *tr.Node {
 		for i := 0; i < w; i++ {
 			n.Kids = append(n.Kids, g.node(depth+1))
 			n.Prio = append(n.Prio, uni(t, "prio", 4)-1)
+			// 1 entry in 4 omits the "priority" key altogether (legal: priority 0)
+			omit := uni(t, "noprio", 4) == 0
+			n.NoPrio = append(n.NoPrio, omit)
+			if omit {
+				n.Prio[i] = 0
+			}
 		}
 		genScope(t, n)
 		return n
@@ -524,14 +540,17 @@ func genPair(t *rapid.T) Pair {
 // injectFault marks one node of the tree (or cuts the text) so that the
 // configuration must be rejected.
 func injectFault(t *rapid.T, c *Case) {
-	kind := pick(t, "fault", []string{tr.FaultUnknownName, tr.FaultScopeUnsupported, tr.FaultScopeUnsupported, tr.FaultScopeInvalid, tr.FaultTwoKeys, "cut"})
+	kind := pick(t, "fault", []string{tr.FaultUnknownName, tr.FaultScopeUnsupported, tr.FaultScopeUnsupported, tr.FaultScopeInvalid, tr.FaultTwoKeys, tr.FaultNoModifier, tr.FaultNoModifier, "cut"})
 	if kind == "cut" {
 		c.Cut = uni(t, "cut", 1000)
 		return
 	}
-	var nodes, single []*tr.Node
+	var nodes, single, holders []*tr.Node
 	c.Tree.Walk(func(n *tr.Node, _ int) {
 		nodes = append(nodes, n)
+		if tr.IsFilter(n.T) || (n.T == tr.Priority && len(n.Kids) > 0) {
+			holders = append(holders, n)
+		}
 		if tr.Supports(n.T, tr.Request) != tr.Supports(n.T, tr.Response) {
 			single = append(single, n)
 		}
@@ -543,7 +562,18 @@ func injectFault(t *rapid.T, c *Case) {
 			nodes = single
 		}
 	}
-	nodes[uni(t, "faultnode", len(nodes))].Fault = kind
+	if kind == tr.FaultNoModifier {
+		if len(holders) == 0 {
+			kind = tr.FaultUnknownName
+		} else {
+			nodes = holders
+		}
+	}
+	n := nodes[uni(t, "faultnode", len(nodes))]
+	n.Fault = kind
+	if kind == tr.FaultNoModifier && n.T == tr.Priority {
+		n.FaultAt = uni(t, "faultat", len(n.Kids)) // any entry, also one that follows a complete entry
+	}
 }
 
 func genTree(t *rapid.T) *tr.Node {
@@ -566,13 +596,13 @@ func genCase(t *rapid.T) Case {
 	return c
 }
 
-var treeRule = "configuration trees over fifo.Group / priority.Group / url,header,querystring,method,cookie filters (with and without else) / registered leaves (trace probes, header set/append/delete on headers the conditions read, error leaves, request-only and response-only leaves), scope drawn at every node from {absent,[request],[response],both,[]}, depth <= 4|6, width <= 4|6; 1 in 5 carries one fault (unknown name, unsupported scope, invalid scope string, two keys, truncated text) and must be rejected; valid ones are applied to 4 request/response pairs and compared with the reference interpreter (final message, returned errors as a multiset); non-trivial = depth >= 3, or differing scopes on a root-to-leaf path, or an error leaf under an aggregating group, or a priority tie"
+var treeRule = "configuration trees over fifo.Group / priority.Group / url,header,querystring,method,cookie filters (with and without else) / registered leaves (trace probes, header set/append/delete on headers the conditions read, error leaves, request-only and response-only leaves), scope drawn at every node from {absent,[request],[response],both,[]}, 1 priority entry in 4 without a priority key, depth <= 4|6, width <= 4|6; 1 in 5 carries one fault (unknown name, unsupported scope, invalid scope string, two keys, a filter or priority entry without modifier, truncated text) and must be rejected; valid ones are applied to 4 request/response pairs and compared with the reference interpreter (final message, returned errors as a multiset); non-trivial = depth >= 3, or differing scopes on a root-to-leaf path, or an error leaf under an aggregating group, or a priority tie"
 
 var propTree = &kit.Prop[Case]{
 	ID: "C12", Name: "tree", Rule: "rapid-drawn " + treeRule,
 	Gen: genCase, Run: runTree, NonTrivial: nontrivial, Classes: classes,
 	Gates: map[string]float64{
-		"depth>=3": 0.30, "mixed-scopes-on-path": 0.10, "err-under-aggregate": 0.04, "priority-tie": 0.08,
+		"depth>=3": 0.30, "mixed-scopes-on-path": 0.10, "err-under-aggregate": 0.04, "priority-tie": 0.08, "priority-key-omitted-after-nonzero": 0.04,
 		"cond-true": 0.20, "cond-false": 0.20, "rejected": 0.10, "error-reported": 0.10, "else-present": 0.20,
 	},
 }
@@ -588,7 +618,7 @@ func TestTree(t *testing.T) { propTree.Check(t, kit.N(6000, 40000)) }
 // holds on the request and fails on the response, and one the other way round.
 var propEnum = &kit.Prop[Case]{
 	ID: "C12", Name: "enum-two-level",
-	Rule: "ALL two-level trees: 4 root kinds x 5 root scopes x (3 child shapes x 5 child scopes)^2 = 4500 configurations, each on 2 message pairs (filter condition true/false per side); non-trivial = same rule as the tree check",
+	Rule: "ALL two-level trees: 6 root kinds (fifo, aggregating fifo, priority 1/2, priority tie, priority 2/key omitted, priority key omitted/-1) x 5 root scopes x (3 child shapes x 5 child scopes)^2 = 6750 configurations, each on 2 message pairs (filter condition true/false per side); non-trivial = same rule as the tree check",
 	Run:  runTree, NonTrivial: nontrivial, Classes: classes,
 }
 
@@ -631,7 +661,7 @@ func TestEnum(t *testing.T) {
 			Res: tr.Res{Status: 200, Header: map[string][]string{"X-A": {"2", "1"}}}},
 	}
 	propEnum.Enumerate(t, func(yield func(Case) bool) {
-		for root := 0; root < 4; root++ {
+		for root := 0; root < 6; root++ {
 			for rs := 0; rs < 5; rs++ {
 				for a := 0; a < 15; a++ {
 					for b := 0; b < 15; b++ {
@@ -645,6 +675,10 @@ func TestEnum(t *testing.T) {
 							n.T, n.Prio = tr.Priority, []int{1, 2}
 						case 3:
 							n.T, n.Prio = tr.Priority, []int{1, 1}
+						case 4: // second entry has no "priority" key: 0, runs after the first
+							n.T, n.Prio, n.NoPrio = tr.Priority, []int{2, 0}, []bool{false, true}
+						case 5: // first entry has no "priority" key: 0, runs before the second (-1)
+							n.T, n.Prio, n.NoPrio = tr.Priority, []int{0, -1}, []bool{true, false}
 						}
 						n.HasScope, n.Scope = scopeOption(rs)
 						n.Kids = []*tr.Node{enumChild(a/5, a%5, 10), enumChild(b/5, b%5, 20)}
@@ -779,4 +813,92 @@ var propHistory = &kit.Prop[History]{
 
 func TestReconfigure(t *testing.T) { propHistory.Check(t, kit.N(3000, 16000)) }
 
-func TestReplay(t *testing.T) { kit.Replay(t, propTree, propEnum, propHistory) }
+// ---------------------------------------------------------------- concurrent reconfiguration
+
+// RaceCase: Posters goroutines POST, at the same moment, configurations that
+// differ only in an identifying probe; after all POSTs have returned the
+// behaviour on requests AND on responses must be that of one and the same
+// posted configuration. Repeated Rounds times on one martianhttp.Modifier.
+type RaceCase struct {
+	Tree    *tr.Node `json:"tree"` // common body of every configuration
+	Posters int      `json:"posters"`
+	Rounds  int      `json:"rounds"`
+	Msg     Pair     `json:"msg"`
+}
+
+func (c RaceCase) config(i int) *tr.Node {
+	probe := &tr.Node{ID: 900000 + i, T: tr.HeaderAppend, P: map[string]string{"name": "X-Verif-Config", "value": fmt.Sprintf("c%d", i)}}
+	return &tr.Node{ID: 800000 + i, T: tr.Fifo, Kids: []*tr.Node{probe, c.Tree}}
+}
+
+func runRace(c RaceCase) kit.Verdict {
+	m := martianhttp.NewModifier()
+	trees := make([]*tr.Node, c.Posters)
+	bodies := make([]string, c.Posters)
+	for i := range trees {
+		trees[i] = c.config(i)
+		bodies[i] = string(trees[i].JSON())
+	}
+	for round := 0; round < c.Rounds; round++ {
+		start := make(chan struct{})
+		codes := make([]int, c.Posters)
+		var wg sync.WaitGroup
+		for i := 0; i < c.Posters; i++ {
+			wg.Add(1)
+			go func(i int) {
+				defer wg.Done()
+				rw := httptest.NewRecorder()
+				req := httptest.NewRequest("POST", "/configure", strings.NewReader(bodies[i]))
+				<-start
+				m.ServeHTTP(rw, req)
+				codes[i] = rw.Code
+			}(i)
+		}
+		close(start)
+		wg.Wait()
+		for i, code := range codes {
+			if code < 200 || code > 299 {
+				return kit.Failf("C12/reconfigure/valid-post/refused", "round %d: concurrent POST %d of a valid configuration answered %d: %s", round, i, code, bodies[i])
+			}
+		}
+		// quiescence: which configuration handles requests?
+		req := realRequest(&c.Msg.Req)
+		_, remove, err := martian.TestContext(req, nil, nil)
+		if err != nil {
+			panic(err)
+		}
+		m.ModifyRequest(req)
+		remove()
+		tag := req.Header.Get("X-Verif-Config")
+		which := -1
+		fmt.Sscanf(tag, "c%d", &which)
+		if which < 0 || which >= c.Posters {
+			return kit.Failf("C12/reconfigure/concurrent-accepted-posts/no-posted-configuration-active", "round %d: after %d concurrent accepted POSTs a request is handled by none of the posted configurations (tag %q)", round, c.Posters, tag)
+		}
+		for _, f := range applyPair("reconfigure/concurrent-accepted-posts", trees[which], m, m, c.Msg) {
+			return kit.Failf(f.Sig, "round %d of %d, %d posters: requests are handled by configuration c%d, but the whole behaviour is not that configuration's: %s", round, c.Rounds, c.Posters, which, f.Msg)
+		}
+	}
+	return nil
+}
+
+var propRace = &kit.Prop[RaceCase]{
+	ID: "C12", Name: "reconfigure-concurrent",
+	Rule: "2..8 goroutines POST at the same moment valid configurations that share a generated tree (depth <= 2) and differ in an identifying probe, 150..400 rounds on one martianhttp.Modifier; after every round (all POSTs returned) a request/response pair must behave, on both sides, exactly as ONE of the posted configurations says; non-trivial = at least 3 posters",
+	Gen: func(t *rapid.T) RaceCase {
+		g := &gen{t: t, maxDepth: 1 + uni(t, "maxdepth", 2), maxWidth: 2}
+		return RaceCase{Tree: g.node(1), Posters: 2 + uni(t, "posters", 7), Rounds: 150 + uni(t, "rounds", 251), Msg: genPair(t)}
+	},
+	Run:        runRace,
+	NonTrivial: func(c RaceCase) bool { return c.Posters >= 3 },
+	Classes: func(c RaceCase) []string {
+		if c.Posters >= 6 {
+			return []string{"posters>=6"}
+		}
+		return nil
+	},
+}
+
+func TestReconfigureConcurrent(t *testing.T) { propRace.Check(t, kit.N(40, 120)) }
+
+func TestReplay(t *testing.T) { kit.Replay(t, propTree, propEnum, propHistory, propRace) }
